@@ -15,7 +15,7 @@ use yash_env::semantics::ExitStatus;
 use yash_env::system::concurrency::{Sleep as _, WriteAll as _};
 use yash_env::system::{Close as _, Dup as _, Exit as _, Pipe as _};
 
-#[derive(Clone, Debug, Serialize, Deserialize, PartialEq)]
+#[derive(Clone, Debug, Default, Serialize, Deserialize, PartialEq)]
 pub struct Unit {
     /// input lines (without the trailing newline), commands and data alike
     pub lines: Vec<String>,
@@ -32,6 +32,15 @@ pub struct Unit {
     pub exits: bool,
     /// the unit is a syntax error
     pub error: bool,
+    /// indexes of lines that are data consumed by a command (never parsed)
+    #[serde(default)]
+    pub data: Vec<usize>,
+    /// Some(on): the unit switches the verbose option
+    #[serde(default)]
+    pub verbose: Option<bool>,
+    /// a syntax error that makes the parser read to the end of the input
+    #[serde(default)]
+    pub to_eof: bool,
 }
 
 #[derive(Clone, Copy, Debug, Serialize, Deserialize, PartialEq, Eq)]
@@ -62,6 +71,7 @@ struct Gen<'a> {
     noglob: bool,
     v: String,
     status: u8,
+    verbose: bool,
 }
 
 impl Gen<'_> {
@@ -90,6 +100,7 @@ impl Gen<'_> {
             reads_stdin: false,
             exits: false,
             error: false,
+            ..Default::default()
         };
         match self.rng.below(100) {
             0..=13 => {
@@ -117,6 +128,7 @@ impl Gen<'_> {
                         u.lines.push(format!("  {}  ", d.join(" ")));
                         u.out.push(format!("[{}]", d.join(" ")));
                         u.tells.push((k, 1));
+                        u.data = vec![1];
                     }
                     1 => {
                         let e: Vec<String> = (0..2).map(|_| self.w()).collect();
@@ -133,6 +145,7 @@ impl Gen<'_> {
                             e.join(" ")
                         ));
                         u.tells.push((k, 2));
+                        u.data = vec![1, 2];
                     }
                     2 => {
                         let k = self.tell();
@@ -142,6 +155,7 @@ impl Gen<'_> {
                         u.lines.push(d.join(":"));
                         u.out.push(format!("[{}][{}]", d[0], d[1..].join(":")));
                         u.tells.push((k, 1));
+                        u.data = vec![1];
                     }
                     _ => {
                         // a multi-line command whose read comes later
@@ -154,6 +168,7 @@ impl Gen<'_> {
                         u.lines.push(d.join(" "));
                         u.out.push(format!("[{}][{}]", d[0], d[1..].join(" ")));
                         u.tells.push((k, 5));
+                        u.data = vec![5];
                     }
                 }
             }
@@ -262,7 +277,21 @@ impl Gen<'_> {
                 u.lines.push("EOF".into());
                 u.tells.push((k, n as usize + 1));
             }
-            87..=88 => {
+            88 => {
+                // the verbose option: every input line read from now on is
+                // echoed to stderr as it is read
+                self.verbose = !self.verbose;
+                u.verbose = Some(self.verbose);
+                u.lines.push(
+                    if self.verbose {
+                        *self.rng.pick(&["set -v", "set -o verbose"])
+                    } else {
+                        *self.rng.pick(&["set +v", "set +o verbose"])
+                    }
+                    .to_string(),
+                );
+            }
+            87 => {
                 u.lines.push(self.rng.pick(&["# a comment", "", "   ", ": ignored"]).to_string());
                 if u.lines[0].starts_with('#') || u.lines[0].trim().is_empty() {
                     u.status = None;
@@ -285,7 +314,7 @@ impl Gen<'_> {
                 u.lines.push(l);
                 u.out.push(format!("EA{id} {w}"));
             }
-            93 => {
+            93 if !self.verbose => {
                 // a dot script read line by line from its own descriptor; its
                 // `read` consumes the next line of the MAIN input
                 let d: Vec<String> = (0..3).map(|_| self.w()).collect();
@@ -296,6 +325,7 @@ impl Gen<'_> {
                 u.out.push("IA inc".into());
                 u.out.push(format!("[{}][{}]", d[0], d[1..].join(" ")));
                 u.tells.push((k, 1));
+                u.data = vec![1];
             }
             94 => {
                 let (a, b) = (self.w(), self.w());
@@ -370,6 +400,7 @@ fn error_unit(rng: &mut Rng) -> Unit {
             reads_stdin: false,
             exits: true,
             error: true,
+            ..Default::default()
         };
     }
     let line = *rng.pick(&[
@@ -385,6 +416,9 @@ fn error_unit(rng: &mut Rng) -> Unit {
         "( echo x",
     ]);
     Unit {
+        // an unterminated quotation or parenthesis makes the parser read on to
+        // the end of the input
+        to_eof: line == "echo \"unterminated" || line == "( echo x",
         lines: vec![line.to_string()],
         out: vec![],
         tells: vec![],
@@ -392,6 +426,7 @@ fn error_unit(rng: &mut Rng) -> Unit {
         reads_stdin: false,
         exits: true,
         error: true,
+        ..Default::default()
     }
 }
 
@@ -410,6 +445,7 @@ pub fn generate(rng: &mut Rng, tier: Tier) -> Case {
         noglob: false,
         v: String::new(),
         status: 0,
+        verbose: false,
     };
     let mut units = Vec::new();
     let trap = g.rng.below(4) == 0;
@@ -422,6 +458,7 @@ pub fn generate(rng: &mut Rng, tier: Tier) -> Case {
             reads_stdin: false,
             exits: false,
             error: false,
+            ..Default::default()
         };
         units.push(plain("trap 'mark tb U1; mark te U1; rc 5' USR1"));
         units.push(plain("mark armed"));
@@ -447,7 +484,9 @@ pub fn generate(rng: &mut Rng, tier: Tier) -> Case {
             };
             let mut lines = vec![cmd];
             lines.extend(data);
+            let data_idx: Vec<usize> = (1..lines.len()).collect();
             units.push(Unit {
+                data: data_idx,
                 lines,
                 out,
                 tells: vec![],
@@ -455,6 +494,7 @@ pub fn generate(rng: &mut Rng, tier: Tier) -> Case {
                 reads_stdin: true,
                 exits: true,
                 error: false,
+                ..Default::default()
             });
         }
         2 => {
@@ -464,7 +504,9 @@ pub fn generate(rng: &mut Rng, tier: Tier) -> Case {
             if g.rng.bool() {
                 lines.push(")".into());
             }
+            let unread: Vec<usize> = (1..lines.len()).collect();
             units.push(Unit {
+                data: unread,
                 lines,
                 out: vec![],
                 tells: vec![],
@@ -472,6 +514,7 @@ pub fn generate(rng: &mut Rng, tier: Tier) -> Case {
                 reads_stdin: false,
                 exits: true,
                 error: false,
+                ..Default::default()
             });
         }
         3..=5 => {
@@ -510,6 +553,9 @@ pub struct Expect {
     pub tells: Vec<(u32, u64)>,
     pub reads_stdin: bool,
     pub has_error: bool,
+    /// what the verbose option echoes to stderr when the script is read through
+    /// a descriptor (None: the option is never switched on)
+    pub echoed: Option<String>,
 }
 
 pub fn expect(c: &Case) -> Expect {
@@ -520,15 +566,33 @@ pub fn expect(c: &Case) -> Expect {
     let mut reads_stdin = false;
     let mut has_error = false;
     let mut done = false;
+    let mut verbose = false;
+    let mut any_verbose = false;
+    let mut echoed = String::new();
+    let mut eof_reader = false;
     for u in &c.units {
         let mut ends = Vec::new();
-        for l in &u.lines {
+        for (i, l) in u.lines.iter().enumerate() {
             script.push_str(l);
             script.push('\n');
             ends.push(script.len() as u64);
+            // lines are echoed when the parser reads them: command lines while
+            // the shell is running, and everything up to the end of the input
+            // once the parser is looking for a closing quote or parenthesis
+            if verbose && ((!done && !u.data.contains(&i)) || eof_reader) {
+                echoed.push_str(l);
+                echoed.push('\n');
+            }
         }
         if done {
             continue;
+        }
+        if let Some(v) = u.verbose {
+            verbose = v;
+            any_verbose |= v;
+        }
+        if u.to_eof {
+            eof_reader = true;
         }
         reads_stdin |= u.reads_stdin;
         for o in &u.out {
@@ -557,6 +621,9 @@ pub fn expect(c: &Case) -> Expect {
             }
         }
     }
+    if c.no_final_newline && echoed.ends_with('\n') && eof_reader_or_last_line_echoed(&echoed, &script) {
+        echoed.pop();
+    }
     Expect {
         script,
         stdout,
@@ -564,7 +631,15 @@ pub fn expect(c: &Case) -> Expect {
         tells,
         reads_stdin,
         has_error,
+        echoed: any_verbose.then_some(echoed),
     }
+}
+
+/// With no newline at the end of the script, the last line is echoed without
+/// one too - if it was echoed at all.
+fn eof_reader_or_last_line_echoed(echoed: &str, script: &str) -> bool {
+    let last = script.rsplit('\n').next().unwrap_or("");
+    !last.is_empty() && echoed.trim_end_matches('\n').ends_with(last)
 }
 
 fn spec_of(exp: &Expect, variant: Variant) -> ScriptSpec {
@@ -675,10 +750,15 @@ fn check_run(exp: &Expect, variant: Variant, obs: &Observed) -> Option<Viol> {
         return Some(v);
     }
     let want_status = format!("exited:{}", exp.status);
+    // the verbose option echoes only input read through a descriptor
+    let echoed = match (&exp.echoed, variant) {
+        (Some(e), Variant::FileStdin | Variant::PipeStdin | Variant::ScriptFile) => e.as_str(),
+        _ => "",
+    };
     let stderr_ok = if exp.has_error {
-        !obs.stderr.is_empty()
+        obs.stderr.starts_with(echoed) && obs.stderr.len() > echoed.len()
     } else {
-        obs.stderr.is_empty()
+        obs.stderr == echoed
     };
     if obs.stdout != exp.stdout || obs.status != want_status || !stderr_ok {
         return Some((
